@@ -49,7 +49,9 @@ def enc_cells(arr):
     arr = np.asarray(arr)
     if arr.dtype.fields is not None:
         names = arr.dtype.names
-        cols = [[enc_scalar(v) for v in arr[n].tolist()] if arr[n].dtype.kind != 'f'
+        # boolean record fields travel as 0 / 1 (the model keeps record fields as numbers)
+        cols = [[str(int(v)) for v in arr[n].tolist()] if arr[n].dtype.kind == 'b'
+                else [enc_scalar(v) for v in arr[n].tolist()] if arr[n].dtype.kind != 'f'
                 else [enc_float(v) for v in arr[n]] for n in names]
         out = ['r' + ';'.join(c[i] for c in cols) for i in range(arr.size)]
     elif arr.ndim == 2:
